@@ -114,7 +114,7 @@ func genOmCase(r *Rand) omCase {
 			ops = append(ops, omOp{Op: "set", Key: k, Val: next()})
 		}
 	}
-	kinds := []string{"set", "set", "set", "remove", "remove", "get", "has", "len", "at", "values", "iterate", "map", "filter", "sort", "equal", "frommap", "marshal", "unmarshal", "unmarshal_into", "iterate_re", "map_re", "filter_re"}
+	kinds := []string{"set", "set", "set", "remove", "remove", "get", "has", "len", "at", "values", "iterate", "map", "filter", "sort", "equal", "frommap", "marshal", "unmarshal", "unmarshal_into", "iterate_re", "map_re", "filter_re", "src_write", "frommap_same"}
 	for i := 0; i < n; i++ {
 		k := Pick(r, kinds)
 		op := omOp{Op: k, On: r.Intn(3)}
@@ -150,7 +150,7 @@ func genOmCase(r *Rand) omCase {
 				op.Keys = append(op.Keys, Pick(r, keys)) // duplicates on purpose
 				op.Vals = append(op.Vals, next())
 			}
-		case "iterate_re", "map_re", "filter_re":
+		case "iterate_re", "map_re", "filter_re", "src_write":
 			op.Inner = Pick(r, []string{"set", "remove"})
 			op.Key, op.Val = Pick(r, keys), next()
 		}
@@ -272,6 +272,7 @@ func runOmCase(c omCase) (key, what string, step int, ex *Exec) {
 		maps := []*orderedmap.Map[string, int]{orderedmap.New[string, int]()}
 		refs := []*omModel{{}}
 		strict := true
+		var lastSrc map[string]int // the Go map the last FromMap was given
 		for i, op := range c.Ops {
 			step = i
 			ti := op.On % len(maps)
@@ -390,6 +391,35 @@ func runOmCase(c omCase) (key, what string, step int, ex *Exec) {
 					return fail("derived", "FromMap result: "+d)
 				}
 				maps[ti], refs[ti], strict = nm, nref, true
+				lastSrc = src
+			case "src_write":
+				// the Go map a FromMap was given stays the caller's: writing to it
+				// afterwards concerns no ordered map (the observation below tells)
+				if lastSrc != nil {
+					if op.Inner == "set" {
+						lastSrc[op.Key] = op.Val
+					} else {
+						delete(lastSrc, op.Key)
+					}
+				}
+			case "frommap_same":
+				// a second ordered map from the same Go map: two independent maps
+				if lastSrc != nil {
+					nm := orderedmap.FromMap(lastSrc)
+					nref := &omModel{}
+					ks := make([]string, 0, len(lastSrc))
+					for k := range lastSrc {
+						ks = append(ks, k)
+					}
+					sort.Strings(ks)
+					for _, k := range ks {
+						nref.set(k, lastSrc[k])
+					}
+					if d := omObserve(nm, nref, true); d != "" {
+						return fail("derived", "FromMap result: "+d)
+					}
+					keep(nm, nref)
+				}
 			case "unmarshal", "unmarshal_into":
 				doc := docJSON(op.Keys, op.Vals)
 				target := m
